@@ -458,7 +458,7 @@ def apply_op(spec, op, backend="pandas"):
         level, drop = op["level"], op["drop"]
         old = index_levels(s)
         if level is not None and len(level) == 0:
-            raise Unspecified("level=[] returns the receiver itself")
+            return s, info  # explicit empty list: nothing is reset (pandas: no-op), with or without an index
         if not old:
             raise Invalid("no-index")
         onames = [l["name"] for l in old]
